@@ -5,6 +5,8 @@ import JSight.ExampleTextProofs
 import JSight.ExampleKProofs
 import JSight.ExampleKWitness
 import JSight.ExampleAllOf
+import JSight.ExampleTextRProofs
+import JSight.E2E
 /-!
 # C15 — Example() emits well-formed JSON
 
@@ -201,4 +203,105 @@ example : VK.exDoc VK.Witness.envMix id id false 8 (fun _ => 0) VK.Witness.schem
 example : VK.exDoc VK.Witness.envReq id id false 8 (fun _ => 0) (.ref ["t"] none) = none :=
   VK.Witness.reqcut_outside false
 
+/-! ## Text level for ANNOTATED trees (work package c15text; modules `ExampleTextR`, `ATreeExample`, `ExampleTextRProofs`)
+
+`Loader.exampleTextR` is `Loader.exampleText` with the rules inside the fragment, as `example.go` reads them: a literal
+node emits its token WHATEVER rules it carries (`min`, `max`, `minLength`, `maxLength`, `regex`, `const`, `nullable`,
+`optional`, `type` — also `"any"` and `"@t"` —, `precision`, `exclusiveMinimum`, `enum`, `or`: none is consulted); an
+array / object node emits brackets around its children unless it carries `or` (→ `TypesListConstraint` →
+`ErrUserTypeFound`) or `allOf` (`CompileAllOf` adds properties) — every other container rule (`minItems`, `maxItems`,
+`additionalProperties`, `nullable`, `optional`, `type`) is not consulted. Type shortcuts and key shortcuts stay outside
+(answer `UNSUPPORTED`; modelled on the abstract schema by `EXK.build`). `Example()` first compiles and checks the
+schema: the text-level model has the scanner's and the loader's errors, not the checker's, so its answer reads "the
+bytes `Example()` returns whenever `Check` accepts the text" (tie `c15-text`, stream T).
+
+`AT.ATree.compact` is the compact JSON text of the VALUE of an annotated tree (scalar and key tokens byte for byte: the
+builder re-emits source tokens; `AT.compact_value`: it is `BT.compact` of the plain byte tree `ATree.value`),
+`AT.ATree.exClass` the decidable class "no container carries `or` / `allOf`" (the rule-object grammar of `AT.ATree` has
+bare names and literal values, so these are the only rules of the grammar the builder reacts to).
+
+`C13_annotated_tree_loads` speaks about the ABSTRACT table (`XNode`: DECODED keys); `Example()` emits the key TOKENS
+(`k.Lex.Value()`). `AT.KeysRaw w0 t w1` is exactly the missing link (the key spans of the loaded table are the key tokens
+of the tree): `C15_annotated_text_roundtrip_of_keys` proves the roundtrip for every annotated tree from it;
+`C15_annotated_text_roundtrip_partial` discharges it for the trees whose objects are all empty (`ATree.keyless`:
+arrays of any nesting, annotated scalars, `{}`), where it is vacuous. For trees with keys the link is checked on the code
+and on the model by `c15-text` (stream T: `ATree.compact` = model = real `Example()`); the statement at full strength is
+`C15_annotated_text_roundtrip_full`. -/
+
+open AT in
+theorem C15_text_builder_extends (bs out : List UInt8) (h : Loader.exampleText bs = .ok out) :
+    Loader.exampleTextR bs = .ok out := Loader.exampleTextR_extends bs out h
+
+/-- on EVERY loader table the rule-aware text-level builder is the builder on the abstract table (kinds, children,
+decoded keys, literal tokens, rule NAMES — what `GetAST` shows) plus the raw key tokens: nothing else of a node is read -/
+theorem C15_text_builder_reads (src : Array UInt8) (nodes : Array Loader.Node) (fuel i : Nat) :
+    Loader.exBuildR src nodes fuel i
+      = Loader.exBuildX (nodes.map (Loader.absX src)) (nodes.map (Loader.rawKeysN src)) fuel i :=
+  Loader.exBuildR_eq_X src nodes fuel i
+
+/-- the statement at full strength -/
+def C15_annotated_text_roundtrip_full : Prop :=
+  ∀ (w0 : AT.Gap) (t : AT.ATree) (w1 : AT.Gap), t.isContainer = true → AT.lineOK w0 t = true →
+    AT.TokOK (AT.docToks w0 t w1) → t.exClass = true →
+    Loader.exampleTextR (AT.docText w0 t w1) = .ok t.compact
+
+/-- every annotated tree of the class, any layout, comments, annotations (inline / multi-line, before / behind the
+comma, notes): IF the loaded table's key spans are the tree's key tokens, the example is the compact text of the VALUE -/
+theorem C15_annotated_text_roundtrip_of_keys (w0 : AT.Gap) (t : AT.ATree) (w1 : AT.Gap) (hc : t.isContainer = true)
+    (hl : AT.lineOK w0 t = true) (hw : AT.TokOK (AT.docToks w0 t w1)) (hx : t.exClass = true)
+    (hk : AT.KeysRaw w0 t w1) :
+    Loader.exampleTextR (AT.docText w0 t w1) = .ok t.compact :=
+  AT.annotated_roundtrip_of_keys w0 t w1 hc hl hw hx hk
+
+/-- **annotated trees without object members** (arrays of any nesting, annotated scalars, empty objects): whatever
+annotations, layout and comments the schema text carries, `Example` is the compact JSON text of the tree's value -/
+theorem C15_annotated_text_roundtrip_partial (w0 : AT.Gap) (t : AT.ATree) (w1 : AT.Gap) (hc : t.isContainer = true)
+    (hl : AT.lineOK w0 t = true) (hw : AT.TokOK (AT.docToks w0 t w1)) (hx : t.exClass = true)
+    (hkl : t.keyless = true) :
+    Loader.exampleTextR (AT.docText w0 t w1) = .ok t.compact :=
+  AT.annotated_roundtrip_keyless w0 t w1 hc hl hw hx hkl
+
+/-- the full statement is equivalent to the raw-key link on the class -/
+theorem C15_annotated_text_roundtrip_full_of_keys
+    (h : ∀ (w0 : AT.Gap) (t : AT.ATree) (w1 : AT.Gap), t.isContainer = true → AT.lineOK w0 t = true →
+      AT.TokOK (AT.docToks w0 t w1) → AT.KeysRaw w0 t w1) : C15_annotated_text_roundtrip_full :=
+  fun w0 t w1 hc hl hw hx => AT.annotated_roundtrip_of_keys w0 t w1 hc hl hw hx (h w0 t w1 hc hl hw)
+
+/-- the result is JSON (with C05 / C06): the JSON scanner model reads the compact text of the value as exactly the
+events of the value without layout — for EVERY annotated tree whose tokens are JSON tokens -/
+theorem C15_annotated_result_is_json (allow : Bool) (t : AT.ATree) (hj : t.value.cls.Json) :
+    JsonScan.events allow t.compact = .ok (JsonScan.evsAt 0 t.value.strip.cls.toJA) :=
+  AT.annotated_result_is_json allow t hj
+
+/-- non-vacuity (`…_partial`): `[⏎1, // {min: 0} - note⏎2⏎]` ↦ `[1,2]` -/
+example : Loader.exampleTextR (AT.docText [] (AT.Ex.inner AT.Ex.aInl) []) = .ok [91, 49, 44, 50, 93] :=
+  C15_annotated_text_roundtrip_partial [] (AT.Ex.inner AT.Ex.aInl) [] rfl (by decide) AT.ExC15.inner_tok rfl rfl
+
+/-- non-vacuity (`…_of_keys`): the hypothesis `KeysRaw` is met (here through `AT.keysRaw_of_keyless`) -/
+example : AT.KeysRaw [] (AT.Ex.inner AT.Ex.aInl) [] :=
+  AT.keysRaw_of_keyless [] (AT.Ex.inner AT.Ex.aInl) [] rfl (by decide) AT.ExC15.inner_tok rfl
+
+/-- non-vacuity (`C15_annotated_result_is_json`), a tree WITH keys (`AT.Ex.t1`): its compact text is
+`{"a":1,"aa":[1,2]}` -/
+example : AT.Ex.t1.compact = [123, 34, 97, 34, 58, 49, 44, 34, 97, 97, 34, 58, 91, 49, 44, 50, 93, 125] := by decide
+
+/-- (3) `C15_annotated_self_valid`, the STATEMENT (not proved in this package: `E2E.loadSchema` / `Compile` on the table
+of an annotated tree — `C02_text_level` has it for one scalar, `C01_text_level` for plain trees — is not composed over
+whole annotated trees yet): for every annotated tree of the class, when the model's checker accepts the schema text
+(`E2E.validateText` does not answer a schema error / `unsupported`), the model's validator ACCEPTS the example the
+builder emits. Tied on both sides by `c15-text` (stream T): real `Validate(Example()) == nil` whenever real `Check`
+accepts, and `E2E.validateText text [] (Example()) = ACC` (or `UNSUP`) on the model. -/
+def C15_annotated_self_valid_full : Prop :=
+  ∀ (w0 : AT.Gap) (t : AT.ATree) (w1 : AT.Gap), t.isContainer = true → AT.lineOK w0 t = true →
+    AT.TokOK (AT.docToks w0 t w1) → t.exClass = true →
+    E2E.validateText (AT.docText w0 t w1) [] t.compact ≠ .rej ∧
+    ∀ c p, E2E.validateText (AT.docText w0 t w1) [] t.compact ≠ .docErr c p
+
 end Props.C15
+
+#print axioms Props.C15.C15_text_builder_extends
+#print axioms Props.C15.C15_text_builder_reads
+#print axioms Props.C15.C15_annotated_text_roundtrip_of_keys
+#print axioms Props.C15.C15_annotated_text_roundtrip_partial
+#print axioms Props.C15.C15_annotated_text_roundtrip_full_of_keys
+#print axioms Props.C15.C15_annotated_result_is_json
